@@ -52,6 +52,13 @@ def variance_ok(kind, op, val, sample, p):
     return False
 
 
+def _canon_update(op, val):
+    """x -= v is x += -v: one form for additive updates"""
+    if op == "-=" and isinstance(val, tuple):
+        return "+=", sym.neg(val)
+    return op, val
+
+
 def check_lwe_op(chk, v, name, spec):
     op, fa, fb, vop, vkind = spec
     f = v.fn(name)
@@ -81,7 +88,7 @@ def check_lwe_op(chk, v, name, spec):
         B = b_st[0]
         sb = P(sample, "b") if sample else None
         want_b = (fb or fa)(sb, pint, mu)
-        if B["op"] != op or B["val"] != want_b:
+        if _canon_update(B["op"], B["val"]) != _canon_update(op, want_b):
             problems.append("b: '%s %s %s', expected '%s %s'" % (sym.show(B["lv"]), B["op"], sym.show(B["val"]), op, sym.show(want_b)))
         terms = []
         asm_st = [A for A in a_st if A["loops"] and A["loops"][-1].get("asm")]
@@ -102,12 +109,12 @@ def check_lwe_op(chk, v, name, spec):
                 chk.broken("%s: mask statement at line %s is not in a single unguarded loop" % (name, A["line"]))
             sa = sym.idx(P(sample, "a"), e) if sample else None
             want_a = fa(sa, pint, mu)
-            if A["op"] != op or A["val"] != want_a:
+            if _canon_update(A["op"], A["val"]) != _canon_update(op, want_a):
                 problems.append("mask: '%s %s %s', the operation %s denotes '%s %s'" % (
                     sym.show(A["lv"]), A["op"], sym.show(A["val"]), name, op, sym.show(want_a)))
             if fb is None and sample:
                 mapped = sym.subst(A["val"], {sa: sb})
-                if mapped != B["val"] or A["op"] != B["op"]:
+                if _canon_update(A["op"], mapped) != _canon_update(B["op"], B["val"]):
                     problems.append("b statement is not the mask statement under a[i] -> b")
             terms.append((lp, e, 1))
             reads = [t for t in _elem_reads(A["val"]) if t[1] in (P(res, "a"), P(sample, "a") if sample else None)]
